@@ -88,6 +88,11 @@ class Segment(CoreSummaries, Contract):
             raise KeyError('locator does not resolve: %s.%s' % (self.cls, self.method))
         self.qual_resolved, node = m
         f = VFunc(self.qual_resolved, node, bound=None)
+        import ast as _ast
+        n_susp = sum(1 for n in _ast.walk(node) if isinstance(n, (_ast.Yield, _ast.Await, _ast.YieldFrom)))
+        if self.start > n_susp:
+            raise Unsupported('the contract describes the resumption after suspension point %d of %s, which has only %d now'
+                              % (self.start, self.qual_resolved, n_susp))
 
         def run(I):
             st = State()
